@@ -129,6 +129,21 @@ func (k c13) Run(c *mon.Ctx, workload string, i int64) {
 			return
 		}
 	}
+	// Another workspace is loaded AFTER the one under test and before it runs:
+	// same file names, the same main.p text, different callees. What a loaded
+	// set does is fixed when it is loaded.
+	decoy := map[string]string{}
+	for n, t := range cs.Srcs {
+		if n == "main.p" {
+			decoy[n] = t
+		} else {
+			decoy[n] = "add_key(decoy_ran, \"" + n + "\")\nboom()\n"
+		}
+	}
+	if len(decoy) > 1 && c.R.Intn(2) == 0 {
+		drive.LoadV1(decoy)
+		c.Count("runs_preceded_by_the_load_of_another_workspace", 1)
+	}
 	prog := &ref.Program{Scripts: cs.Stmts, Funcs: ref.Merge(ref.ProbeFuncs(), ref.PointFuncs())}
 	model := cs.Point.Clone()
 	mo := ref.Run(prog, "main.p", model, modelBudget)
